@@ -126,6 +126,15 @@ def run(p, led, tier):
                 shown = short(e.node) if isinstance(e.node, ast.expr) else (d or repr(e.value))
                 led.fail("C01-R4", key, loc, f"`{shown}` is not a pure builtin, math.*, operator.*, constant or confined lambda: expressions can reach it by name",
                          witness=f"metabolize(\"{e.key_text.strip(chr(39))}(…)\") invokes it")
+    # what the evaluator resolves names in is the table *and the tree it is given*: a parsed tree that is memoised while a
+    # NodeTransformer of the module rewrites trees in place (true/false → constants for the logic pathway) serves the
+    # rewritten tree to every later evaluation of that text — names resolve that are on no allow-list of that pathway
+    from .c02 import rewritten_after_cache
+    for caller_, call_, helper_, deco_, rw_ in rewritten_after_cache(p, res, M):
+        led.fail("C01-R4", f"{caller_.qual} ▸ `{short(call_, 50)}`", where(caller_, call_),
+                 f"the tree comes out of `{helper_.name}` (`{src(deco_)}`: shared between calls, pathways and instances) and `{rw_}` rewrites it in place: after the logic pathway has seen a "
+                 "text, the math and tool pathways evaluate `true` / `false` in it although no allow-list of theirs holds those names",
+                 witness="metabolize('true and 41 + 1', KREBS_CYCLE) then metabolize('true and 41 + 1', GLYCOLYSIS) → 42; probe(true) runs the tool with [True]")
     n_w = 0
     for tname in TABLES:
         for fi, kind, node in package_attr_writes(p, tname, None):
@@ -331,9 +340,22 @@ def run(p, led, tier):
                 led.ok("C01-R7", key, where(caller, call), f"dominated by {okg}")
             else:
                 led.fail("C01-R7", key, where(caller, call), "pathway entered without the expression-length guard having passed")
+    def only_from_inside(fn, depth=0, seen=()):
+        """fn is a private helper every call site of which lies in a pathway function, the walker's cluster, or another such helper"""
+        if fn.key in W.cluster() or fn in pathway_fns:
+            return True
+        if depth > 4 or fn.key in seen or not fn.name.startswith("_") or fn.name.startswith("__"):
+            return False
+        sites = [c_ for c_, _ in res.callers_of(fn)]
+        # bound-method references (`partial(self._helper, call)`) hand the helper to whoever runs it: the referencing function counts
+        if fn.cls is not None:
+            for m_ in fn.cls.methods.values():
+                if m_ is not fn and any(is_self_attr(x, fn.name) and isinstance(x.ctx, ast.Load) for x in ast.walk(m_.node)):
+                    sites.append(m_)
+        return bool(sites) and all(only_from_inside(c_, depth + 1, seen + (fn.key,)) for c_ in sites)
     for caller, call in res.callers_of(walker):
         key = f"{caller.qual} ▸ calls the walker"
-        if caller.key in W.cluster() or caller in pathway_fns:
+        if caller.key in W.cluster() or caller in pathway_fns or only_from_inside(caller):
             continue
         led.fail("C01-R7", key, where(caller, call), "the walker is entered from outside the pathway functions")
     led.ok("C01-R7", f"{walker.qual} ▸ callers", where(walker, walker.node), f"only the walker itself and {sorted(m.name for m in pathway_fns)} call it")
